@@ -15,10 +15,18 @@ type vfActorBehavior struct {
 	inHandle int
 	termArg  error
 	terms    int
+	onHandle func(n int) // called inside every handler with the number of messages handled before it
+}
+
+func (b *vfActorBehavior) arrive() {
+	if b.onHandle != nil {
+		b.onHandle(len(b.order))
+	}
 }
 
 func (b *vfActorBehavior) Init(args ...any) error { return nil }
 func (b *vfActorBehavior) HandleMessage(from gen.PID, message any) error {
+	b.arrive()
 	switch m := message.(type) {
 	case int:
 		b.order = append(b.order, m)
@@ -39,12 +47,14 @@ func (b *vfActorBehavior) HandleMessage(from gen.PID, message any) error {
 	return nil
 }
 func (b *vfActorBehavior) HandleCall(from gen.PID, ref gen.Ref, request any) (any, error) {
+	b.arrive()
 	if m, ok := request.(int); ok {
 		b.order = append(b.order, m)
 	}
 	return nil, nil
 }
 func (b *vfActorBehavior) HandleLog(message gen.MessageLog) error {
+	b.arrive()
 	b.order = append(b.order, 800)
 	return nil
 }
@@ -105,6 +115,89 @@ func VerifC03ActorOrder() {
 		}
 	}
 	lib.VerifReach("order compared")
+}
+
+// c03Push puts message id into the real queue of the given class (0 urgent, 1 system, 2 main, 3 log).
+func c03Push(p *vfProcess, class int, id int) {
+	if class == 3 {
+		p.mailbox.Log.Push(gen.MessageLog{})
+		return
+	}
+	msg := gen.TakeMailboxMessage()
+	msg.Type = gen.MailboxMessageTypeRegular
+	msg.Message = id
+	switch class {
+	case 0:
+		p.mailbox.Urgent.Push(msg)
+	case 1:
+		p.mailbox.System.Push(msg)
+	default:
+		p.mailbox.Main.Push(msg)
+	}
+}
+
+// VerifC03ActorArrivals: the receiver is busy while messages arrive. M messages are queued under a
+// symbolic class assignment, and A more arrive each *during* the handling of a symbolically chosen
+// message (inside the handler, i.e. after the run loop popped it and before it picks the next one), in
+// a symbolic class. At every pick the real Actor.ProcessRun must take the oldest message of the highest
+// non-empty class as the queues stand at that moment - compared step by step with four model FIFOs.
+func VerifC03ActorArrivals() {
+	m := lib.VerifParam("messages", 2)
+	a := lib.VerifParam("arrivals", 1)
+	b, p := newVfActor()
+	var model [4][]int
+	for i := 0; i < m; i++ {
+		c := lib.VerifPick("class", 4)
+		c03Push(p, c, i)
+		id := i
+		if c == 3 {
+			id = 800
+		}
+		model[c] = append(model[c], id)
+	}
+	at := make([]int, a)
+	cl := make([]int, a)
+	for k := 0; k < a; k++ {
+		at[k] = lib.VerifPick("during", m+a)
+		cl[k] = lib.VerifPick("aclass", 4)
+	}
+	b.onHandle = func(n int) {
+		for k := 0; k < a; k++ {
+			if at[k] == n {
+				c03Push(p, cl[k], 100+k)
+			}
+		}
+	}
+	err := b.ProcessRun()
+	lib.VerifAssert(err == nil, "actor keeps running")
+	// model run
+	var want []int
+	for {
+		c := 0
+		for c < 4 && len(model[c]) == 0 {
+			c++
+		}
+		if c == 4 {
+			break
+		}
+		n := len(want)
+		want = append(want, model[c][0])
+		model[c] = model[c][1:]
+		for k := 0; k < a; k++ {
+			if at[k] == n {
+				id := 100 + k
+				if cl[k] == 3 {
+					id = 800
+				}
+				model[cl[k]] = append(model[cl[k]], id)
+			}
+		}
+	}
+	lib.VerifAssert(len(b.order) == len(want), "every message queued before or during the run is handled exactly once")
+	for i := range want {
+		lib.VerifAssert(i < len(b.order) && b.order[i] == want[i], "each pick takes the oldest message of the highest non-empty class at that moment")
+	}
+	lib.VerifReach("order with arrivals compared")
 }
 
 // VerifC05ActorExit: one exit signal of each kind reaches the real Actor.ProcessRun with symbolic
